@@ -37,6 +37,9 @@ M('c04_stats_merge_listing', 'C04', 'cell_type_mapper/diff_exp/precompute_from_a
 M('c04_hash_order_markers', 'C04', 'cell_type_mapper/type_assignment/marker_cache_v2.py',
   "            if len(these_reference) > 0:\n                these_reference = np.array(these_reference)\n                these_query = np.array(these_query)\n                sorted_dex = np.argsort(these_reference)\n                these_reference = these_reference[sorted_dex]\n                these_query = these_query[sorted_dex]\n",
   "            if len(these_reference) > 0:\n                these_reference = np.array(these_reference)\n                these_query = np.array(these_query)\n")
+M('c04_parent_peeks_at_live_buffer', 'C04', 'cell_type_mapper/diff_exp/precompute_from_anndata.py',
+  "            p.start()\n\n            process_list.append(p)\n",
+  "            p.start()\n\n            process_list.append(p)\n            if len(process_list) > 1:\n                open(buffer_path_list[-2], 'rb').close()\n")
 
 # ---- C14 ------------------------------------------------------------------------------------
 M('c14_negative_code_ok', 'C14', 'cell_type_mapper/utils/multiprocessing_utils.py',
